@@ -27,7 +27,7 @@ const W_DURABILITY: [u16; NKINDS] = [6, 5, 26, 3, 3, 4, 2, 2, 16, 2, 0, 1, 1, 2,
 const W_READY: [u16; NKINDS] = [6, 4, 26, 3, 2, 3, 2, 2, 18, 2, 1, 1, 1, 2, 1, 1, 30, 12, 10, 3, 5, 3, 3, 1, 6, 0, 12, 0, 1, 1];
 const W_READS: [u16; NKINDS] = [8, 5, 28, 3, 5, 4, 5, 3, 10, 6, 16, 1, 2, 1, 1, 0, 26, 6, 5, 2, 4, 1, 0, 0, 8, 2, 14, 0, 0, 0];
 const W_MEMBERSHIP: [u16; NKINDS] = [6, 5, 26, 3, 2, 6, 2, 2, 10, 14, 0, 2, 2, 2, 1, 1, 26, 6, 8, 3, 5, 2, 0, 1, 6, 0, 12, 0, 4, 1];
-const W_FLOW: [u16; NKINDS] = [6, 3, 30, 5, 5, 3, 2, 2, 24, 1, 0, 1, 1, 3, 3, 1, 28, 6, 5, 1, 3, 2, 8, 1, 8, 2, 12, 0, 1, 6];
+const W_FLOW: [u16; NKINDS] = [6, 3, 30, 5, 5, 3, 2, 2, 24, 1, 0, 1, 1, 4, 3, 1, 28, 6, 5, 1, 3, 5, 8, 1, 8, 2, 12, 0, 1, 6];
 const W_SNAPSHOT: [u16; NKINDS] = [6, 4, 26, 4, 5, 5, 4, 3, 18, 3, 0, 1, 1, 6, 2, 4, 26, 6, 6, 2, 5, 12, 1, 3, 6, 0, 12, 0, 0, 2];
 const W_PREVOTE: [u16; NKINDS] = [10, 12, 22, 3, 5, 3, 5, 3, 8, 2, 0, 1, 3, 1, 1, 0, 26, 6, 4, 4, 6, 4, 0, 0, 16, 0, 12, 0, 0, 0];
 const W_TRANSFER: [u16; NKINDS] = [8, 4, 28, 4, 3, 5, 2, 2, 14, 4, 0, 12, 1, 1, 1, 0, 26, 6, 5, 2, 4, 1, 1, 0, 8, 0, 14, 0, 0, 2];
@@ -214,7 +214,7 @@ pub fn spec_for(id: &str) -> Option<Spec> {
                 options: 0,
                 rule: "non-trivial = an inflight window became full, or a capacity change hit a non-empty window, or a rejection moved next_idx, or an append was split by size, or a proposal was refused for size",
                 nontrivial: |_s, f| has(f, F_WINDOW_FULL | F_CAP_CHANGE_NONEMPTY | F_REJECT_MOVED_NEXT | F_SPLIT_APPEND | F_REFUSED_FOR_SIZE),
-                quick_cases: 24000,
+                quick_cases: 36000,
                 thorough_cases: 1_000_000,
                 ops_quick: (60, 260),
                 ops_thorough: (60, 500),
